@@ -274,3 +274,18 @@ End Rebuild.
 Definition alignments_state (cols : list str) (ref : str) (taxa : list str) (cogids : list Z) (rows : list row)
   : list (Z * msa_read) :=
   rebuild cols (selc cols ref rows) taxa cogids.
+
+(* no cognate set has, inside one doculect, words for two different concepts (the writer groups the rows by
+   concept: such words would change their relative order) *)
+Definition same_groupb (cols : list str) (ref : str) (x y : row) : bool :=
+  match cell_int (get_col cols ref x), cell_int (get_col cols ref y) with
+  | Some a, Some b => a =? b
+  | _, _ => false
+  end
+  && match get_col cols s_doculect x, get_col cols s_doculect y with
+     | VStr s, VStr t => str_eqb s t
+     | _, _ => false
+     end.
+Definition no_crossb (cols : list str) (ref : str) (rows : list row) : bool :=
+  forallb (fun x => forallb (fun y => negb (same_groupb cols ref x y)
+                                      || cell_eqb (get_col cols s_concept x) (get_col cols s_concept y)) rows) rows.
